@@ -8,13 +8,19 @@ import time
 from rustex import ExtractError
 import verusgen
 
-REFUTE_PAT = re.compile(
-    r'^error: (postcondition not satisfied|precondition not satisfied|invariant not satisfied[^\n]*|'
-    r'loop invariant not preserved[^\n]*|assertion failed|possible arithmetic underflow/overflow|'
-    r'possible division by zero|decreases not satisfied[^\n]*|could not prove termination[^\n]*|'
-    r'possible bit shift underflow/overflow|value may be out of range of the target type[^\n]*|'
-    r'unable to prove[^\n]*|recommendation not met[^\n]*|cannot show invariant holds[^\n]*|'
-    r'invariant not satisfied at end of loop body|invariant not satisfied before loop)', re.M)
+# After Verus has accepted the generated text (no VIR/compile error), every located `error:` is a failed
+# proof obligation (postcondition / precondition / invariant / assertion / overflow / bounds / decreases ...),
+# except the resource-limit family, which means "undecided".
+NON_REFUTE_PAT = re.compile(r'(resource limit|rlimit|timed? ?out|aborting due to|internal error|panicked)', re.I)
+
+
+class _Refute:
+    @staticmethod
+    def match(s):
+        return None if NON_REFUTE_PAT.search(s) else True
+
+
+REFUTE_PAT = _Refute
 ERR_PAT = re.compile(r'^error(\[E\d+\])?: ([^\n]*)\n\s*--> ([^:\n]+):(\d+):(\d+)', re.M)
 
 
